@@ -1,7 +1,7 @@
 """C02 / C01: contracts for decoder/picture_syntax.py (picture and transform parameters)."""
 from pyvc.api import *
 from contracts.c02_common import *
-from contracts.c02_stream import FRAME_IO, IO_POST, is_parse_code  # noqa: F401
+from contracts.c02_stream import lcv_ok, FRAME_IO, IO_POST, is_parse_code  # noqa: F401
 from contracts.c02_sequence_header import coding_params_known, hdr_known  # noqa: F401
 from contracts import c13_slice_sizes  # noqa: F401  (slice_sizes.py is transparent)
 from vc2_conformance.decoder.exceptions import *  # noqa: F401,F403
@@ -36,7 +36,7 @@ def qm_shape(m, d, dh):
 
 TP_KEYS = ["wavelet_index", "dwt_depth", "wavelet_index_ho", "dwt_depth_ho", "slices_x", "slices_y", "slice_bytes_numerator",
            "slice_bytes_denominator", "slice_prefix_bytes", "slice_size_scaler", "quant_matrix"]
-TP_MOD = FRAME_IO + ['state["_level_constrained_values"]', 'state["_expected_major_version"]'] + ['state["%s"]' % k for k in TP_KEYS]
+TP_MOD = FRAME_IO + ['state["_level_constrained_values"]', "state.g_lcv_level", 'state["_expected_major_version"]'] + ['state["%s"]' % k for k in TP_KEYS]
 
 
 @inline
@@ -95,7 +95,7 @@ class _etp:
     args = {"state": STATE}
     requires = PIC_PRE + ['has(state, "wavelet_index") and has(state, "wavelet_index_ho") and has(state, "dwt_depth_ho")',
                           '0 <= state["wavelet_index"] and state["wavelet_index"] <= 6 and 0 <= state["wavelet_index_ho"] and state["wavelet_index_ho"] <= 6 and state["dwt_depth_ho"] >= 0']
-    modifies = FRAME_IO + ['state["_level_constrained_values"]', 'state["_expected_major_version"]', 'state["wavelet_index_ho"]', 'state["dwt_depth_ho"]']
+    modifies = FRAME_IO + ['state["_level_constrained_values"]', "state.g_lcv_level", 'state["_expected_major_version"]', 'state["wavelet_index_ho"]', 'state["dwt_depth_ho"]']
     raises = {"ConformanceError": None}
     ensures = IO_POST + ["hdr_known(state)", 'has(state, "wavelet_index_ho") and has(state, "dwt_depth_ho")',
                          '0 <= state["wavelet_index_ho"] and state["wavelet_index_ho"] <= 6 and state["dwt_depth_ho"] >= 0']
@@ -105,7 +105,7 @@ class _etp:
 class _slp:
     args = {"state": STATE}
     requires = PIC_PRE + ["wavelet_known(state)"]
-    modifies = FRAME_IO + ['state["_level_constrained_values"]'] + ['state["%s"]' % k for k in TP_KEYS[4:10]]
+    modifies = FRAME_IO + ['state["_level_constrained_values"]', "state.g_lcv_level"] + ['state["%s"]' % k for k in TP_KEYS[4:10]]
     raises = {"ConformanceError": None}
     ensures = IO_POST + ["hdr_known(state)", "slices_known(state)"]
 
@@ -114,13 +114,13 @@ class _slp:
 class _qm:
     args = {"state": STATE}
     requires = PIC_PRE + ["wavelet_known(state)"]
-    modifies = FRAME_IO + ['state["_level_constrained_values"]', 'state["quant_matrix"]']
+    modifies = FRAME_IO + ['state["_level_constrained_values"]', "state.g_lcv_level", 'state["quant_matrix"]']
     raises = {"ConformanceError": None}
     ensures = IO_POST + ["hdr_known(state)", 'has(state, "quant_matrix")', 'qm_shape(state["quant_matrix"], state["dwt_depth"], state["dwt_depth_ho"])']
     invariants = {
         1: IO_POST + ['has(state, "quant_matrix") and is_fresh(state["quant_matrix"])', 'lo_has(state["quant_matrix"], 0, "L")',
-                      'forall(1, level, lambda L: lo_has(state["quant_matrix"], L, "H"))', 'has(state, "_level_constrained_values")'],
-        2: IO_POST + ['has(state, "quant_matrix") and is_fresh(state["quant_matrix"])', 'has(state, "_level_constrained_values")',
+                      'forall(1, level, lambda L: lo_has(state["quant_matrix"], L, "H"))', 'lcv_ok(state)'],
+        2: IO_POST + ['has(state, "quant_matrix") and is_fresh(state["quant_matrix"])', 'lcv_ok(state)',
                       'ite(state["dwt_depth_ho"] == 0, lo_has(state["quant_matrix"], 0, "LL"), '
                       'lo_has(state["quant_matrix"], 0, "L") and forall(1, state["dwt_depth_ho"] + 1, lambda L: lo_has(state["quant_matrix"], L, "H")))',
                       'forall(state["dwt_depth_ho"] + 1, level, lambda L: hi3(state["quant_matrix"], L))'],
@@ -134,3 +134,7 @@ class _tp:
     modifies = TP_MOD
     raises = {"ConformanceError": None}
     ensures = IO_POST + ["hdr_known(state)", "tp_known(state)"]
+
+
+
+from contracts.c02_corpus import MONITOR_DRIVER  # noqa: E402,F401  (native fallback: run-time monitoring over corpus streams)
